@@ -17,7 +17,7 @@ use crate::sched::{self, PointRec};
 pub fn meta() -> Meta {
     Meta {
         level: "model_checking",
-        rule: "stateless exploration of ALL schedules with at most 2 preemptions (thorough: 3 for the two-thread scripts) of 14 scripts with 1..3 application threads on a fresh real manager per execution (64 nodes, apply cache 16, 3 variables): S1 two threads compute the same conjunction; S2 recomputation vs. gc with the dead result still in the unique table and apply cache; S3 a different operator on shared operands vs. gc; S4 drop vs. gc vs. clone+or; S5 one thread running the multi-threaded ite/and with split depth 2 (fork/join through the hook spawns controlled threads); S6 gc vs. gc vs. xor; S8 add_vars (exclusive lock) vs. and; S9 two allocating threads on a 12-node manager; S10 ZBDD not (tautology chain) vs. gc; S11 quantification vs. gc vs. quantification; S12 compute-drop-recompute vs. gc; S13 ite / S14 or+and on operands (x0 ? x1 : x2), (x0 ? !x2 : x2) with split depth 2 (forked joins) on a store with room for the operands plus 0..3 nodes (OutOfMemory inside one branch of a join while the sibling succeeds; failing operations are allowed, the reference counts and the node count after teardown must still be exact); G1 the background collector as a controlled thread on a 160-node store (marks 90/95) that holds 72 live and 18 dead nodes: the application thread builds A, builds and drops B, builds C and D, crossing the high water mark up to twice (all schedules with <= 2 preemptions, about 50 000 per kind, split into 16 disjoint parts of the schedule tree); kinds bdd, bcdd, zbdd; MTBDD<I64>: M1 add with a fresh constant, constant dropped, another fresh constant (terminal slot recycling) vs. gc; M2 two threads creating the same new terminal vs. gc. Scheduling points: every level / store-state / manager-RwLock / terminal / cache-bucket lock acquisition (blocking ones with a readiness predicate, so deadlock = no enabled thread is detected), cache try-locks, gc try-lock and phases, handle clone/drop, fork/join. Oracle per execution: every result has the model's table and equals the handle obtained by recomputing sequentially in the same manager afterwards; no panic / deadlock; full audit with exact reference counts; after dropping everything + gc the initial node count. states = distinct (schedule outcome signatures), transitions = scheduling decisions taken, executions = schedules run.",
+        rule: "stateless exploration of ALL schedules with at most 2 preemptions (thorough: 3 for the two-thread scripts) of 14 scripts with 1..3 application threads on a fresh real manager per execution (64 nodes, apply cache 16, 3 variables): S1 two threads compute the same conjunction; S2 recomputation vs. gc with the dead result still in the unique table and apply cache; S3 a different operator on shared operands vs. gc; S4 drop vs. gc vs. clone+or; S5 one thread running the multi-threaded ite/and with split depth 2 (fork/join through the hook spawns controlled threads); S6 gc vs. gc vs. xor; S8 add_vars (exclusive lock) vs. and; S9 two allocating threads on a 12-node manager; S10 ZBDD not (tautology chain) vs. gc; S11 quantification vs. gc vs. quantification; S12 compute-drop-recompute vs. gc; S13 ite / S14 or+and on operands (x0 ? x1 : x2), (x0 ? !x2 : x2) with split depth 2 (forked joins) on a store with room for the operands plus 0..3 nodes (OutOfMemory inside one branch of a join while the sibling succeeds; failing operations are allowed, the reference counts and the node count after teardown must still be exact); G1 the background collector as a controlled thread on a 160-node store (marks 90/95) that holds 72 live and 18 dead nodes: the application thread builds A, builds and drops B, builds C and D, crossing the high water mark up to twice (all schedules with <= 2 preemptions, about 50 000 per kind, split into 16 disjoint parts of the schedule tree; thorough: G2 = the same work split over two application threads); kinds bdd, bcdd, zbdd; MTBDD<I64>: M1 add with a fresh constant, constant dropped, another fresh constant (terminal slot recycling) vs. gc; M2 two threads creating the same new terminal vs. gc. Scheduling points: every level / store-state / manager-RwLock / terminal / cache-bucket lock acquisition (blocking ones with a readiness predicate, so deadlock = no enabled thread is detected), cache try-locks, gc try-lock and phases, handle clone/drop, fork/join. Oracle per execution: every result has the model's table and equals the handle obtained by recomputing sequentially in the same manager afterwards; no panic / deadlock; full audit with exact reference counts; after dropping everything + gc the initial node count. states = distinct (schedule outcome signatures), transitions = scheduling decisions taken, executions = schedules run.",
         assumptions: vec![
             "only sequentially consistent interleavings at the instrumented points are explored; Relaxed/Acquire/Release reorderings of the atomics are not modelled".into(),
             "the background collector thread is a controlled thread in script G1 only (adopted through the daemon hook; its wait for the condition variable is modelled by a sticky notification flag, see DESIGN 8.8); in the other scripts the node stores (< 100 nodes) disable it and its effect, gc() under a shared manager lock at any point, is scheduled explicitly (S2-S4, S6, S10, S11)".into(),
@@ -58,6 +58,12 @@ pub fn shards(tier: &str) -> Vec<String> {
     for k in ["bdd", "bcdd", "zbdd"] {
         for part in 0..16 {
             v.push(format!("{k}:g1p{part}:b2"));
+        }
+        // G2 (thorough): the same with the work split over two application threads
+        if tier == "thorough" {
+            for part in 0..16 {
+                v.push(format!("{k}:g2p{part}:b2"));
+            }
         }
     }
     for s in ["m1", "m2"] {
@@ -276,8 +282,8 @@ fn execute<K: QOps>(ctx: &mut Ctx, script: &str, prefix: &[usize]) -> Outcome
 where
     MRefOf<K>: Send + Sync,
 {
-    if script.starts_with("g1") {
-        return execute_bg::<K>(prefix);
+    if script.starts_with("g1") || script.starts_with("g2") {
+        return execute_bg::<K>(prefix, script.starts_with("g2"));
     }
     let n = 3u32;
     let s13_extra: Option<usize> = script.strip_prefix("s13c").or(script.strip_prefix("s14c")).map(|x| x.parse().unwrap());
@@ -564,7 +570,7 @@ where
         let mut nviol = 0usize;
         let mut maxpre = 0usize;
         let ctx_cell = std::cell::RefCell::new(ctx);
-        let (part, parts) = match script.strip_prefix("g1p") {
+        let (part, parts) = match script.strip_prefix("g1p").or(script.strip_prefix("g2p")) {
             Some(p) => (p.parse::<usize>().unwrap(), 16),
             None => (0, 1),
         };
@@ -619,7 +625,7 @@ fn bg_table(i: u64) -> Tab {
 /// mark 95 nodes): before the controlled part the store holds 72 live and 18 dead nodes; the
 /// application thread then builds A, builds B, drops B, builds C and D. The collector thread is a
 /// controlled thread that becomes enabled whenever the store notified it.
-fn execute_bg<K: QOps>(prefix: &[usize]) -> Outcome
+fn execute_bg<K: QOps>(prefix: &[usize], two_threads: bool) -> Outcome
 where
     MRefOf<K>: Send + Sync,
 {
@@ -674,13 +680,27 @@ where
     let mr = &mref;
     let gc0 = mref.with_manager_shared(|m| m.gc_count());
     let nodes0 = count(&mref);
-    let bodies: Vec<Box<dyn FnOnce() + Send + '_>> = vec![Box::new(move || {
-        *r[0].lock().unwrap() = Some(K::build(mr, tabs[0]));
-        let b = K::build(mr, tabs[1]);
-        drop(b);
-        *r[2].lock().unwrap() = Some(K::build(mr, tabs[2]));
-        *r[3].lock().unwrap() = Some(K::build(mr, tabs[3]));
-    })];
+    let bodies: Vec<Box<dyn FnOnce() + Send + '_>> = if two_threads {
+        vec![
+            Box::new(move || {
+                *r[0].lock().unwrap() = Some(K::build(mr, tabs[0]));
+                let b = K::build(mr, tabs[1]);
+                drop(b);
+            }),
+            Box::new(move || {
+                *r[2].lock().unwrap() = Some(K::build(mr, tabs[2]));
+                *r[3].lock().unwrap() = Some(K::build(mr, tabs[3]));
+            }),
+        ]
+    } else {
+        vec![Box::new(move || {
+            *r[0].lock().unwrap() = Some(K::build(mr, tabs[0]));
+            let b = K::build(mr, tabs[1]);
+            drop(b);
+            *r[2].lock().unwrap() = Some(K::build(mr, tabs[2]));
+            *r[3].lock().unwrap() = Some(K::build(mr, tabs[3]));
+        })]
+    };
     let kind = K::NAME;
     let pfx = prefix.to_vec();
     let exec = sched::run_reporting_deadlock(prefix, bodies, |d, tr| {
